@@ -174,3 +174,98 @@ def attach():
                         f'filled {self._filled_size}, size {self._buffer_size}, len {len(self._bts)}')
             return res
         W.BufferedOutput.add_bytes = add_bytes
+
+
+# ------------------------------------------------------------------------------------------------
+# codec contracts: every call of the real primitive encoders, cached or not, round-trips through
+# the independent reference decoder and consumes exactly the returned length (C06 on every call
+# made by every end-to-end workload).
+# ------------------------------------------------------------------------------------------------
+_codec_attached = False
+
+
+def attach_codec():
+    global _codec_attached
+    if _codec_attached:
+        return
+    _codec_attached = True
+    import sys
+    import math
+    import datetime as dt
+    from vf import rp66
+    from dliswriter.utils.internal import struct_writer as SW
+    from dliswriter.utils.internal.internal_enums import RepresentationCode as RC
+
+    def check(name, code, value, res):
+        EVALS['codec:' + name] += 1
+        try:
+            d = rp66.decode_exact(code, bytes(res))
+        except rp66.Malformed as e:
+            _record('C06', name, 'undecodable:' + rp66.CODE_NAMES.get(code, str(code)),
+                    f'{value!r:.80} -> {bytes(res)[:24].hex()}: {e}')
+            return
+        ok = True
+        if code == 18:
+            ok = d == value
+        elif code in (19, 20):
+            ok = d == str(value)
+        elif code == 21:
+            try:
+                u = value.astimezone(dt.timezone.utc)
+                ok = d[0] == u.year and d[2:7] == (u.month, u.day, u.hour, u.minute, u.second) and \
+                    abs(d[7] - u.microsecond / 1000.0) <= 1.0 and d[1] == 2
+            except Exception:
+                ok = True
+        elif code == 23:
+            ok = d == (value.origin_reference, value.copy_number, value.name)
+        elif code == 24:
+            ok = d == (value.parent.set_type, value.origin_reference, value.copy_number, value.name)
+        elif code == 26:
+            ok = d == int(value)
+        elif code in (12, 13, 14, 15, 16, 17):
+            ok = d == value
+        elif code == 7:
+            ok = (d == value and math.copysign(1, d) == math.copysign(1, value)) or (d != d and value != value)
+        if not ok:
+            _record('C06', name, 'roundtrip:' + rp66.CODE_NAMES.get(code, str(code)),
+                    f'{value!r:.80} encoded as {bytes(res)[:24].hex()} decodes to {d!r:.80}')
+
+    def wrap(fn, name, code_of):
+        def w(*a, **kw):
+            res = fn(*a, **kw)
+            try:
+                code, value = code_of(*a, **kw)
+                if code is not None:
+                    check(name, code, value, res)
+            except Exception as e:
+                _record('C06', name, 'contract-error', repr(e))
+            return res
+        w.__name__ = getattr(fn, '__name__', name)
+        w.__wrapped_by_vf__ = fn
+        return w
+
+    originals = {
+        'write_struct_uvari': (SW.write_struct_uvari, lambda v: (18, v)),
+        'write_struct_ascii': (SW.write_struct_ascii, lambda v: (20, v)),
+        'write_struct_dtime': (SW.write_struct_dtime, lambda v: (21, v)),
+        'write_struct_obname': (SW.write_struct_obname, lambda v: (23, v)),
+        'write_struct_objref': (SW.write_struct_objref, lambda v: (24, v)),
+        'write_struct_status': (SW.write_struct_status, lambda v: (26, v)),
+        'write_struct': (SW.write_struct, lambda rc, v: (int(rc) if int(rc) in (7, 12, 13, 14, 15, 16, 17, 18, 19, 20, 21, 23, 24, 26)
+                                                        else None, v)),
+    }
+    if hasattr(SW, 'write_struct_ident'):
+        originals['write_struct_ident'] = (SW.write_struct_ident, lambda v: (19, v))
+    repl = {}
+    for name, (fn, code_of) in originals.items():
+        repl[id(fn)] = wrap(fn, name, code_of)
+    # re-bind in every dliswriter module namespace and in the dispatch dict
+    for mname, mod in list(sys.modules.items()):
+        if not mname.startswith('dliswriter') or mod is None:
+            continue
+        for attr, val in list(vars(mod).items()):
+            if callable(val) and id(val) in repl:
+                setattr(mod, attr, repl[id(val)])
+    for k, v in list(SW._struct_dict.items()):
+        if id(v) in repl:
+            SW._struct_dict[k] = repl[id(v)]
